@@ -35,7 +35,7 @@ func (t *inProcessTransport) Close() error {
 }
 
 func (t *inProcessTransport) Send(ctx context.Context, e envelope) error {
-	if !t.Connected() {
+	if t.isClosed() {
 		return errors.New("transport is closed")
 	}
 	select {
@@ -48,13 +48,25 @@ func (t *inProcessTransport) Send(ctx context.Context, e envelope) error {
 }
 
 func (t *inProcessTransport) Receive(ctx context.Context) (envelope, error) {
-	if !t.Connected() {
+	// Envelopes sent before the transport was closed are still delivered: a party that sends its
+	// last envelope (e.g. a finished or failed session) and closes right away must not lose it.
+	select {
+	case e := <-t.envChan:
+		return e, nil
+	default:
+	}
+	if t.isClosed() {
 		return nil, errors.New("transport is closed")
 	}
 	select {
 	case <-ctx.Done():
 		return nil, fmt.Errorf("receive: %w", ctx.Err())
 	case <-t.done:
+		select {
+		case e := <-t.envChan:
+			return e, nil
+		default:
+		}
 		return nil, errors.New("transport was closed while receiving")
 	case e := <-t.envChan:
 		return e, nil
@@ -104,7 +116,15 @@ func (t *inProcessTransport) SetEncryption(context.Context, SessionEncryption) e
 func (t *inProcessTransport) Connected() bool {
 	t.mu.RLock()
 	defer t.mu.RUnlock()
-	return !t.closed
+	// Closing one end closes the other at once; the reader still counts as connected until it has
+	// consumed what was sent before the close, like a socket whose buffered data precedes the EOF.
+	return !t.closed || len(t.envChan) > 0
+}
+
+func (t *inProcessTransport) isClosed() bool {
+	t.mu.RLock()
+	defer t.mu.RUnlock()
+	return t.closed
 }
 
 func (t *inProcessTransport) LocalAddr() net.Addr {
